@@ -11,6 +11,10 @@ import (
 
 func init() {
 	sim.Register("C08", "lifecycle", 3, func(s *sim.Sim) {
+		if s.Chance(0.35, "exact-instants") {
+			// no 1 ns drift per step: heartbeats, timers and ages fall on exact multiples of 100 ms, often whole seconds
+			s.NoTick = true
+		}
 		w := runLifecycle(s, lifecycleOpts{kinds: []lcKind{kindClassic, kindBasic}, maxActors: 5, zones: []string{"", "a", "b"}, faults: true, ghosts: s.Chance(0.5, "ghosts")})
 		if len(w.actors) >= 2 && s.Probes["cas-retried"] > 0 {
 			s.Nontrivial = true
